@@ -47,7 +47,10 @@ Definition dec_ev (p : N) : cev :=
 Record st := { ch : chan; q : sp; orc : list N; log : list item }.
 
 Definition now (s : st) : N := s_tcur (q s).
-Definition qadd (q0 : sp) (t : N) (e : cev) : sp := fst (fst (sp_add q0 t (enc_ev e))).
+(* events are added with an encoding [encf] of their kind: [enc_ev] for one channel on its own,
+   a channel-tagged encoding when several channels share the event set (Channel.Multi) *)
+Definition qaddf (encf : cev -> N) (q0 : sp) (t : N) (e : cev) : sp := fst (fst (sp_add q0 t (encf e))).
+Notation qadd := (qaddf enc_ev).
 
 Definition set_ch (s : st) (c : chan) : st := {| ch := c; q := q s; orc := orc s; log := log s |}.
 Definition set_q (s : st) (q' : sp) : st := {| ch := ch s; q := q'; orc := orc s; log := log s |}.
@@ -73,6 +76,7 @@ Record variant := { drain_all : bool; exit_first : bool }.
 
 Section Loop.
 Variable vr : variant.
+Variable encf : cev -> N.
 Variable tx : N -> N.
 Variable mt : metrics.
 Variable bursts : list (N * list (N * N)).   (* (time, [(msg id, length)]) *)
@@ -108,8 +112,8 @@ Definition send_message (s : st) (m len : N) (fromq : bool) : st :=
     let s1 := set_orc s o' in
     let add_unbusy (s' : st) :=
       if b =? 0 then s'
-      else set_q (set_ch s' (set_busy_until (ch s') (t + b))) (qadd (q s') (t + b) EUnbusy) in
-    let add_exit (s' : st) := set_q s' (qadd (q s') (t + (m_lat mt + b + j)) (EExit m)) in
+      else set_q (set_ch s' (set_busy_until (ch s') (t + b))) (qaddf encf (q s') (t + b) EUnbusy) in
+    let add_exit (s' : st) := set_q s' (qaddf encf (q s') (t + (m_lat mt + b + j)) (EExit m)) in
     let s2 := if exit_first vr then add_unbusy (add_exit s1) else add_exit (add_unbusy s1) in
     emit s2 (IStart m len t j fromq).
 
@@ -136,13 +140,13 @@ Definition unbusy (s : st) : st :=
   drain (if drain_all vr then length (buffer c) else 1%nat) s1.
 
 (* sender module: handle_message(wake-up k) sends the k-th burst; the channel
-   is sampled on entry and after every send *)
-Definition offer (s : st) (o : N * N) : st := sample (send_message s (fst o) (snd o) false).
+   is sampled before and after every send *)
+Definition offer (s : st) (o : N * N) : st := sample (send_message (sample s) (fst o) (snd o) false).
 
 Definition handle_wake (s : st) (k : N) : st :=
   match nth_error bursts (N.to_nat k) with
   | None => s
-  | Some (_, offs) => fold_left offer offs (sample s)
+  | Some (_, offs) => fold_left offer offs s
   end.
 
 (* receiver module: handle_message(m) logs the arrival and samples the channel *)
@@ -172,7 +176,7 @@ Fixpoint steps (n : nat) (s : st) : st :=
 Fixpoint sched_wakes (q0 : sp) (k : N) (bs : list (N * list (N * N))) : sp :=
   match bs with
   | [] => q0
-  | (t, _) :: r => sched_wakes (qadd q0 t (EWake k)) (k + 1) r
+  | (t, _) :: r => sched_wakes (qaddf encf q0 t (EWake k)) (k + 1) r
   end.
 
 Definition idle_chan : chan := {| busy := false; finish := 0; buffer := []; acc := 0 |}.
@@ -200,7 +204,7 @@ Definition fuel_for (offs : list (N * N)) : nat := 3 * length offs + 1.
 
 Definition run_model (vr : variant) (tx : N -> N) (mt : metrics) (oracle : list N) (offs : list (N * N)) : st :=
   let bs := group offs 0 in
-  sample (steps vr tx mt bs (fuel_for offs) (init bs oracle)).
+  sample (steps vr enc_ev tx mt bs (fuel_for offs) (init enc_ev bs oracle)).
 
 (* the code as it is in /repo now *)
 Definition current : variant := {| drain_all := true; exit_first := true |}.
@@ -234,8 +238,10 @@ Definition enc_item (i : item) : list N :=
 
 Definition hdr_len : N := 64.
 
-(* script: seed brk br lat jit pol lim  ntx (len tx)*  norc j*  (t len)*
-   (seed, brk, br only concern the implementation: rng seed and bitrate) *)
+(* single-channel script: seed brk br lat jit pol lim  ntx (len tx)*  norc j*  (t len)*
+   (seed, brk, br only concern the implementation: rng seed and bitrate).
+   The runner that is extracted and compared with the implementation is Channel.Multi.run
+   (several channels on one event set); Project.multi_projects relates the two. *)
 Definition run_with (vr : variant) (input : list N) : list N :=
   match input with
   | _ :: _ :: _ :: lat :: jit :: pol :: lim :: r =>
